@@ -19,9 +19,8 @@ from .core import VERIF, Ctx, Ob, PropSpec, load_known_findings, write_evidence
 from .model import AnalysisError
 
 
-def run_property(pid: str, tier: str, root: str | None = None, write: bool = True, quiet: bool = False) -> int:
-    t0 = time.time()
-    seed = int(os.environ.get("VERIF_SEED", "0") or 0)
+def evaluate(pid: str, tier: str = "quick", root: str | None = None):
+    """Run the rules of one property.  Returns (spec, ctx, obligations, errors)."""
     errors: list[str] = []
     obs: list[Ob] = []
     ctx = None
@@ -35,21 +34,27 @@ def run_property(pid: str, tier: str, root: str | None = None, write: bool = Tru
         errors.append(str(e))
     except Exception as e:  # a traceback must never look like a violation
         errors.append(f"internal error: {type(e).__name__}: {e}")
-        if not quiet:
+        if os.environ.get("SA_DEBUG"):
             traceback.print_exc(file=sys.stderr)
-    if spec is None:
-        print(f"ANALYSIS-ERROR property={pid} {'; '.join(errors)}")
-        return 2
-
-    # floors: counted on the domain (all checked obligations of a rule prefix)
-    checked = [o for o in obs if o.status in ("ok", "violation")]
-    if not errors:
+    if spec is not None and not errors:
+        checked = [o for o in obs if o.status in ("ok", "violation")]
         for prefix, floor in spec.floors.items():
             n = sum(1 for o in checked if o.rule.startswith(prefix))
             if n < floor:
                 errors.append(
                     f"floor missed: rule {prefix} matched {n} instance(s), expected at least {floor}"
                 )
+    return spec, ctx, obs, errors
+
+
+def run_property(pid: str, tier: str, root: str | None = None, write: bool = True, quiet: bool = False) -> int:
+    t0 = time.time()
+    seed = int(os.environ.get("VERIF_SEED", "0") or 0)
+    spec, ctx, obs, errors = evaluate(pid, tier, root)
+    if spec is None:
+        print(f"ANALYSIS-ERROR property={pid} {'; '.join(errors)}")
+        return 2
+    checked = [o for o in obs if o.status in ("ok", "violation")]
 
     known = load_known_findings()
     known_keys = {
@@ -67,7 +72,7 @@ def run_property(pid: str, tier: str, root: str | None = None, write: bool = Tru
 
     wall = time.time() - t0
     if write:
-        path = write_evidence(pid, tier, seed, obs, spec, ctx, wall, violations, matched, errors)
+        write_evidence(pid, tier, seed, obs, spec, ctx, wall, violations, matched, errors)
     if not quiet:
         nres = sum(1 for o in obs if o.status == "unresolved")
         print(
